@@ -30,7 +30,7 @@ var c40Presets = []c40Case{
 }
 
 func c40SimKey(c c40Case) string {
-	return fmt.Sprintf("%d/%d/%d/%d/%d/%d/%d", c.Seed, c.Accesses, c.MaxAddrLog, c.CacheKB, c.Ways, c.MSHR, c.DRAMLat)
+	return fmt.Sprintf("%d/%d/%d/%d/%d/%d/%d/%d", c.Seed, c.Accesses, c.MaxAddrLog, c.CacheKB, c.Ways, c.MSHR, c.DRAMLat, c.SlowEvery)
 }
 
 // ---- generator ------------------------------------------------------------------------------
@@ -121,6 +121,14 @@ func c40RaceSig(r raceReport) string {
 			return "monitor." + h
 		}
 		if hasFrame(st, "timing.(*SerialEngine).Run") || hasFrame(st, "timing.(*SerialEngine).RunUntil") {
+			for _, f := range st { // innermost first: the harness' own component counts as component code
+				if strings.HasPrefix(f.Fn, "verif/harness/") && !strings.Contains(f.Fn, "c40Recorder") {
+					return "event-handler"
+				}
+				if f.Repo {
+					break
+				}
+			}
 			if strings.HasPrefix(topRepo(st), "timing.") {
 				return "engine-loop"
 			}
@@ -237,7 +245,7 @@ func (r *c40Runner) child(rq c40ChildReq, fresh bool) c40Verdict {
 				}
 				time.Sleep(time.Millisecond)
 			}
-			served = c40Client(ann.Port, rq.Case.Reqs, stop)
+			served = c40RunClients(ann.Port, rq.Case, stop)
 		}()
 	} else {
 		clientDone <- nil
@@ -626,6 +634,403 @@ func TestC40Quiescence(t *testing.T) {
 	kit.SetChecks(6, 30)
 	rapid.Check(t, func(rt *rapid.T) {
 		c, steered := genC40(rt, c40InspectMenu, excluded)
+		if steered {
+			s.Excluded(1)
+		}
+		run(rt, c, false)
+	})
+}
+
+// ---- sub-check: concurrent clients against long event handlers ---------------------------------------
+
+// c40ConcPresets: short workloads (the clients' plans span a few tens of
+// milliseconds; the run should not outlast them by much). SlowEvery is fixed
+// per preset so that the unmonitored reference is computed once per preset.
+var c40ConcPresets = []c40Case{
+	{Seed: 11, Accesses: 40, MaxAddrLog: 12, CacheKB: 1, Ways: 2, MSHR: 2, DRAMLat: 20, SlowEvery: 8},
+	{Seed: 12, Accesses: 50, MaxAddrLog: 14, CacheKB: 4, Ways: 4, MSHR: 4, DRAMLat: 100, SlowEvery: 12},
+	{Seed: 13, Accesses: 70, MaxAddrLog: 10, CacheKB: 1, Ways: 1, MSHR: 1, DRAMLat: 5, SlowEvery: 20},
+	{Seed: 14, Accesses: 60, MaxAddrLog: 16, CacheKB: 2, Ways: 2, MSHR: 8, DRAMLat: 50, SlowEvery: 32},
+}
+
+// c40Profile: what a client mostly does. (Not part of the case: only the drawn
+// requests are.)
+type c40Profile struct {
+	menu []string
+	gaps []int
+	spin []int
+}
+
+var c40Profiles = []c40Profile{
+	{ // mixed
+		menu: []string{"pause", "pause", "pause", "continue", "continue", "continue", "continue", "tick", "tick", "tick", "tick", "now", "now",
+			"component", "component", "field", "field", "field", "field", "state", "buffers", "progress"},
+		gaps: []int{0, 0, 0, 100, 300, 1000, 2500},
+		spin: []int{0, 0, 20, 50, 150, 400},
+	},
+	{ // pauser: holds and releases the engine in quick succession
+		menu: []string{"pause", "pause", "pause", "pause", "continue", "continue", "continue", "continue", "continue", "state", "tick", "now"},
+		gaps: []int{0, 0, 100, 300, 1000},
+		spin: []int{0, 20, 50, 150, 400},
+	},
+	{ // inspector: inspections back to back
+		menu: []string{"tick", "tick", "tick", "tick", "now", "now", "component", "component", "field", "field", "field", "field", "continue", "buffers", "progress"},
+		gaps: []int{0, 0, 0, 0, 0, 100, 300},
+		spin: []int{0, 0, 0, 20, 50, 150},
+	},
+}
+
+// the components a concurrent case inspects: mostly the harness' own slow
+// component
+var c40ConcComps = []string{c40SlowName, c40SlowName, c40SlowName, "MemAccessAgent", "Cache", "DRAM"}
+
+func genC40ConcReq(rt *rapid.T, p c40Profile, tickLib bool, excluded map[string]bool, steered *bool) c40Req {
+	kind := rapid.SampledFrom(p.menu).Draw(rt, "kind")
+	if excluded[kind] {
+		*steered = true
+		var allowed []string
+		for _, k := range p.menu {
+			if !excluded[k] {
+				allowed = append(allowed, k)
+			}
+		}
+		if len(allowed) == 0 {
+			allowed = []string{"state"}
+		}
+		kind = rapid.SampledFrom(allowed).Draw(rt, "kind2")
+	}
+	r := c40Req{Kind: kind}
+	switch kind {
+	case "tick":
+		r.Comp = c40SlowName
+		if tickLib {
+			r.Comp = rapid.SampledFrom(c40ConcComps).Draw(rt, "comp")
+		}
+	case "component":
+		r.Comp = rapid.SampledFrom(c40ConcComps).Draw(rt, "comp")
+	case "field":
+		r.Comp = rapid.SampledFrom(c40ConcComps).Draw(rt, "comp")
+		if rapid.IntRange(0, 11).Draw(rt, "missing") == 0 {
+			r.Field = "NoSuchField"
+		} else {
+			r.Field = rapid.SampledFrom(c40Fields[r.Comp]).Draw(rt, "field")
+		}
+		if r.Comp != c40SlowName && rapid.IntRange(0, 4).Draw(rt, "paged") == 0 {
+			r.Query = fmt.Sprintf("slice_offset=%d&slice_limit=%d", rapid.IntRange(0, 5).Draw(rt, "off"), rapid.IntRange(1, 20).Draw(rt, "lim"))
+		}
+	case "buffers":
+		r.Query = rapid.SampledFrom([]string{"", "sort=level&limit=5", "sort=percent&limit=20"}).Draw(rt, "bq")
+	}
+	r.GapUS = rapid.SampledFrom(p.gaps).Draw(rt, "gap")
+	r.SpinUS = rapid.SampledFrom(p.spin).Draw(rt, "spin")
+	r.Yields = rapid.SampledFrom([]int{0, 0, 1}).Draw(rt, "yields")
+	return r
+}
+
+func genC40Conc(rt *rapid.T, excluded map[string]bool) (c40Case, bool) {
+	c := c40ConcPresets[rapid.IntRange(0, len(c40ConcPresets)-1).Draw(rt, "preset")]
+	c.Procs = rapid.SampledFrom([]int{2, 3, 4, 8}).Draw(rt, "procs")
+	nd := rapid.IntRange(5, 12).Draw(rt, "ndur")
+	for i := 0; i < nd; i++ {
+		c.SlowDurUS = append(c.SlowDurUS, rapid.SampledFrom([]int{0, 50, 200, 500, 500, 1000, 1000, 2000, 2000, 3000, 5000}).Draw(rt, "dur"))
+	}
+	c.Probe = rapid.IntRange(0, 2).Draw(rt, "probe") == 0
+	// a tick of a library component may legitimately shift the access stream
+	// (relaxed compare): only one case in three has them
+	tickLib := rapid.IntRange(0, 2).Draw(rt, "tickLib") == 0
+	steered := false
+	ncl := rapid.IntRange(2, 4).Draw(rt, "clients")
+	for i := 0; i < ncl; i++ {
+		p := c40Profiles[rapid.SampledFrom([]int{0, 0, 1, 1, 2, 2, 2}).Draw(rt, "profile")]
+		n := rapid.IntRange(20, 45).Draw(rt, "nreqs")
+		var reqs []c40Req
+		for j := 0; j < n; j++ {
+			reqs = append(reqs, genC40ConcReq(rt, p, tickLib, excluded, &steered))
+		}
+		c.Clients = append(c.Clients, reqs)
+	}
+	return c, steered
+}
+
+func c40IsInspection(kind string) bool {
+	return kind == "tick" || kind == "now" || kind == "component" || kind == "field"
+}
+
+// c40ConcStats is what the stamps say about the interleaving that happened:
+// send/receive times of every request (parent process) against the wall-clock
+// spans of Slow's handler executions (child process, same clock).
+type c40ConcStats struct {
+	clientsMidRun         int // clients with at least one request answered mid-run
+	mid                   int
+	inFlightTogether      int // mid-run requests that were in flight together with a request of another client
+	pauseMidSlow          int // a pause was sent while Slow's handler still had >= 200 us to run, and answered after it ended
+	inspectDuringPending  int // inspections of another client sent while such a pause was in flight and the handler still had >= 100 us to run
+	inspectMidSlow        int // inspections sent while Slow's handler had >= 200 us to run (their own Pause has to wait)
+	inspectPausedByOther  int // inspections sent and answered while the engine was held by a completed pause of another client
+	slowSpans, slowLongMS int
+}
+
+func c40ConcJudge(res c40Result) c40ConcStats {
+	var st c40ConcStats
+	spans := res.SlowSpans
+	st.slowSpans = len(spans)
+	for _, sp := range spans {
+		if sp[1]-sp[0] >= 1_000_000 {
+			st.slowLongMS++
+		}
+	}
+	// span active at time t with at least `left` ns to go
+	active := func(t, left int64) (int64, bool) {
+		i := sort.Search(len(spans), func(i int) bool { return spans[i][1] > t })
+		if i < len(spans) && spans[i][0] <= t && spans[i][1]-t >= left {
+			return spans[i][1], true
+		}
+		return 0, false
+	}
+	var mid []c40Served
+	clients := map[int]bool{}
+	for _, sv := range res.Served {
+		if sv.MidRun {
+			mid = append(mid, sv)
+			if sv.Client >= 0 {
+				clients[sv.Client] = true
+			}
+		}
+	}
+	st.mid = len(mid)
+	st.clientsMidRun = len(clients)
+	for i, a := range mid {
+		for j, b := range mid {
+			if i != j && a.Client != b.Client && a.SendNS < b.RecvNS && b.SendNS < a.RecvNS {
+				st.inFlightTogether++
+				break
+			}
+		}
+	}
+	for _, p := range mid {
+		if c40IsInspection(p.Kind) {
+			if _, ok := active(p.SendNS, 200_000); ok {
+				st.inspectMidSlow++
+			}
+			// held by a completed pause of another client: a pause P of another
+			// client answered before this was sent, and no continue of anybody in
+			// flight at any time between P's answer and this answer
+			for _, q := range mid {
+				if q.Kind != "pause" || q.Client == p.Client || q.RecvNS > p.SendNS {
+					continue
+				}
+				held := true
+				for _, k := range res.Served {
+					if k.Kind == "continue" && k.Err == "" && k.RecvNS >= q.RecvNS && k.SendNS <= p.RecvNS {
+						held = false
+						break
+					}
+				}
+				if held {
+					st.inspectPausedByOther++
+					break
+				}
+			}
+		}
+		if p.Kind != "pause" {
+			continue
+		}
+		end, ok := active(p.SendNS, 200_000)
+		if !ok || p.RecvNS < end {
+			continue
+		}
+		st.pauseMidSlow++
+		for _, q := range mid {
+			if q.Client != p.Client && c40IsInspection(q.Kind) && q.SendNS > p.SendNS && end-q.SendNS >= 100_000 {
+				st.inspectDuringPending++
+			}
+		}
+	}
+	return st
+}
+
+const c40ORule = "as sub-check monitor (child process of the -race binary, client in the parent), but (a) 2–4 concurrent clients, each with a connection of its own and a drawn plan of 20–45 requests " +
+	"(pause, continue, tick, now, component, field, state, buffers, progress, from a drawn profile per client: mixed / mostly pause and continue / inspections back to back; drawn sleep 0–2.5 ms, busy-wait 0–400 us and Gosched before each), after all clients have finished the harness issues one " +
+	"unconditional continue (no request of the API waits for another request, so every plan terminates under every interleaving); (b) short workloads (40–70 reads and writes) plus a harness component " +
+	"Slow registered like any component: the engine hook injects an event for it at every 8th–32nd dispatched event (fixed per workload), whose handler busy-works for a drawn 0–5 ms (cycled list of 5–12 durations), " +
+	"bumping its own state all the time and keeping a Busy marker set meanwhile, so that pauses regularly arrive mid-handler and wait, and other clients' requests arrive while they wait; half of the " +
+	"tick/component/field requests address Slow. One case in three runs with the harness' own Monitor over the Pause/Continue-observing engine wrapper (probe) instead of the builder's monitor. " +
+	"Oracle: (1) no race report, no handler panic (as sub-check monitor); (2) explicit witnesses of an inspection overlapping event handling, independent of the race detector: " +
+	"Slow.TickLater() called by /api/tick/Slow finds Slow's Busy marker set; the answer to /api/component/Slow or /api/field/Slow… shows Busy=1; probe: Monitor.now read the clock while an event was " +
+	"in progress, an event was in progress when Pause() returned to an inspection handler or to pauseEngine, or the engine moved between that and the matching Continue(); (3) completion and fingerprint " +
+	"against the unmonitored run with the same injected events (the monitor's pokes of Slow excluded; one case in three also ticks library components and is compared on completion only). " +
+	"Non-trivial (from the stamps: request send/receive times in the parent against the wall-clock spans of Slow's handler executions in the child): >= 2 clients were answered mid-run and a " +
+	"pause was sent while Slow's handler still had >= 200 us to run and was answered only after it ended."
+
+func TestC40Overlap(t *testing.T) {
+	s := kit.Begin(t, "C40", "overlap", c40ORule)
+	defer s.End()
+	s.Assume("interleavings: only the schedules produced by the drawn delays, handler durations and GOMAXPROCS were seen")
+	if !raceEnabled {
+		t.Fatalf("this check needs the race detector: build with -race")
+	}
+	r := newC40Runner(t, s)
+	defer r.pool.Close()
+	excluded := c40ExcludedKinds()
+
+	run := func(f kit.Failer, c c40Case, fresh bool) {
+		key := c40SimKey(c)
+		base, haveBase := r.bases[key]
+		v := r.child(c40ChildReq{Case: c, Base: !haveBase, Mon: true}, fresh)
+		if v.Inconcl != "" {
+			s.AddExtra("inconclusive_runs", 1)
+			s.Note(c, false, "inconclusive")
+			return
+		}
+		if !v.Res.Race {
+			r.t.Fatalf("child was not built with -race")
+		}
+		if !haveBase {
+			if v.Res.Base.Panic != "" || !v.Res.Base.Finished {
+				s.Note(c, false, "base-run-failed")
+				return
+			}
+			base = v.Res.Base
+			r.bases[key] = base
+		}
+		s.AddExtra("monitored_ms_total", int(v.Res.MonMS))
+		st := c40ConcJudge(v.Res)
+		if os.Getenv("C40DEV") != "" {
+			fmt.Fprintf(os.Stderr, "DEV base=%dms mon=%dms run=%dms probe=%v clients=%d every=%d events=%d slow=%d\n", v.Res.BaseMS, v.Res.MonMS, (v.Res.RunEndNS-v.Res.RunStartNS)/1e6, c.Probe, len(c.Clients), c.SlowEvery, v.Res.Mon.Events, v.Res.Mon.Slow)
+		}
+		stamp := fmt.Sprintf("[%d clients, %d requests mid-run, %d Slow spans (%d >= 1 ms), pauses sent mid-Slow-handler: %d, inspections sent while such a pause was pending: %d]",
+			st.clientsMidRun, st.mid, st.slowSpans, st.slowLongMS, st.pauseMidSlow, st.inspectDuringPending)
+
+		known := false
+		for _, rr := range v.Child.Races {
+			if os.Getenv("C40DEV_NORACE") != "" {
+				fmt.Fprintf(os.Stderr, "DEV race ignored: %s %s\n", c40RaceSig(rr), stamp)
+				continue
+			}
+			s.Fail(f, c, c40RaceSig(rr), "data race: %s %s\n%s", rr.detail(), stamp, head(rr.Raw, 3500))
+			known = true
+		}
+		for _, p := range v.Child.Panics {
+			s.Fail(f, c, c40PanicSig(p), "a monitor handler panicked:\n%s", head(p, 3000))
+			known = true
+		}
+		if v.Res.Mon.Panic != "" {
+			s.Fail(f, c, "engine-panic:"+firstRepoFrame(v.Res.Mon.Panic), "the monitored run panicked: %s", head(v.Res.Mon.Panic, 3000))
+			known = true
+		}
+		// explicit witnesses
+		if n := v.Res.TickWhileBusy + v.Res.TickBusyAtomic; n > 0 {
+			s.Fail(f, c, c40OverlapSig+"monitor.tick", "Monitor.tick called Slow.TickLater() while Slow's event handler was running (%d of %d /api/tick/Slow calls found the handler's Busy marker set) %s",
+				n, v.Res.SlowTicks, stamp)
+			known = true
+		}
+		for _, sv := range v.Res.Served {
+			if sv.SawBusy {
+				s.Fail(f, c, c40OverlapSig+"monitor."+c40Handler[sv.Kind], "the answer to a %s inspection of Slow (client %d) shows Busy=1: the component was read while its event handler was running %s\n%s",
+					sv.Kind, sv.Client, stamp, head(sv.Body, 600))
+				known = true
+				break
+			}
+		}
+		if v.Res.NowDuringEvent > 0 {
+			s.Fail(f, c, c40OverlapSig+"monitor.now", "Monitor.now read the engine's clock while an event was being handled (%d of %d calls) %s", v.Res.NowDuringEvent, v.Res.NowCalls, stamp)
+			known = true
+		}
+		brackets := 0
+		for _, sec := range v.Res.Sections {
+			brackets++
+			if sec.S1%2 == 1 || sec.S2 != sec.S1 {
+				what := fmt.Sprintf("event %d was still being handled when Pause() returned to Monitor.%s", sec.S1/2+1, sec.Handler)
+				if sec.S1%2 == 0 {
+					what = fmt.Sprintf("the engine went on handling events after Pause() had returned to Monitor.%s and before the matching Continue() (%d handled at Pause, phase %d at Continue)", sec.Handler, sec.S1/2, sec.S2)
+				}
+				s.Fail(f, c, c40OverlapSig+"monitor."+sec.Handler, "%s %s", what, stamp)
+				known = true
+				break
+			}
+		}
+		if known {
+			s.Note(c, false, "hit-known-finding")
+			return
+		}
+
+		strict := true
+		for _, cl := range c.Clients {
+			for _, rq := range cl {
+				if rq.Kind == "tick" && rq.Comp != c40SlowName {
+					strict = false
+				}
+			}
+		}
+		if what, msg := c40Diff(base, v.Res.Mon, c.Accesses, strict); what != "" {
+			b1 := r.child(c40ChildReq{Case: c, Base: true}, true)
+			b2 := r.child(c40ChildReq{Case: c, Base: true}, false)
+			if b1.Inconcl != "" || b2.Inconcl != "" || b1.Res.Base != b2.Res.Base || b1.Res.Base != base {
+				s.AddExtra("base_not_reproducible", 1)
+				s.Note(c, false, "base-not-reproducible")
+				return
+			}
+			s.Fail(f, c, "outcome-differs:"+what, "monitored run differs from the unmonitored run of the same case: %s %s\nunmonitored %+v\nmonitored   %+v", msg, stamp, base, v.Res.Mon)
+			s.Note(c, false, "hit-known-finding")
+			return
+		}
+
+		cl := []string{fmt.Sprintf("procs:%d", c.Procs), fmt.Sprintf("concurrent-clients-midrun:%d", st.clientsMidRun)}
+		add := func(n int, name string) {
+			if n > 0 {
+				cl = append(cl, name)
+			}
+		}
+		add(st.inFlightTogether, "requests-of-different-clients-in-flight-together")
+		add(st.pauseMidSlow, "pause-sent-mid-handler-answered-after-it")
+		add(st.inspectDuringPending, "inspection-sent-while-pause-pending-mid-handler")
+		add(st.inspectMidSlow, "inspection-sent-mid-handler")
+		add(st.inspectPausedByOther, "inspection-while-paused-by-other-client")
+		add(v.Res.SlowTicks, "slow-ticked-through-monitor")
+		if c.Probe {
+			cl = append(cl, "probe-leg")
+			add(v.Res.PauseMidSlow, "probe:pauseEngine-called-Pause-mid-Slow-handler")
+			add(v.Res.PauseMidEvent, "probe:pauseEngine-called-Pause-mid-event")
+			add(v.Res.InspectMidSlow, "probe:inspection-called-Pause-mid-Slow-handler")
+			add(v.Res.NowCalls, "probe:now-observed")
+			add(brackets, "probe:brackets-observed")
+			s.AddExtra("probe_brackets", brackets)
+			s.AddExtra("probe_pause_mid_slow", v.Res.PauseMidSlow)
+		} else {
+			cl = append(cl, "race-leg")
+		}
+		if strict {
+			cl = append(cl, "strict-compare")
+		} else {
+			cl = append(cl, "tick-injected(relaxed-compare)")
+		}
+		if st.mid < len(v.Res.Served) {
+			cl = append(cl, "sim-finished-before-last-request")
+		}
+		s.AddExtra("requests_served_midrun", st.mid)
+		s.AddExtra("pauses_sent_mid_slow_handler", st.pauseMidSlow)
+		s.AddExtra("inspections_sent_while_pause_pending", st.inspectDuringPending)
+		s.AddExtra("inspections_while_paused_by_other_client", st.inspectPausedByOther)
+		s.AddExtra("slow_spans", st.slowSpans)
+		s.Note(c, st.clientsMidRun >= 2 && st.pauseMidSlow > 0, cl...)
+	}
+
+	var c c40Case
+	if ok, err := kit.LoadReplay("C40", "overlap", &c); ok {
+		if err != nil {
+			t.Fatal(err)
+		}
+		for i := 0; i < 4 && !t.Failed(); i++ { // schedule-dependent: several attempts
+			run(t, c, true)
+		}
+		return
+	} else if kit.ReplayMode() {
+		t.Skip()
+	}
+
+	kit.SetChecks(12, 80)
+	rapid.Check(t, func(rt *rapid.T) {
+		c, steered := genC40Conc(rt, excluded)
 		if steered {
 			s.Excluded(1)
 		}
